@@ -23,7 +23,7 @@ type c04Op struct {
 	Name     string         `json:"name,omitempty"`
 	From     string         `json:"from,omitempty"`
 	Blob     int            `json:"blob,omitempty"`
-	Dash     bool           `json:"dash_digest,omitempty"` // digest sent in the accepted sha256-<hex> spelling
+	Dash     bool           `json:"dash_digest,omitempty"`  // digest sent in the accepted sha256-<hex> spelling
 	Upper    bool           `json:"upper_digest,omitempty"` // digest sent with upper-case hex digits
 	Template string         `json:"template,omitempty"`
 	System   string         `json:"system,omitempty"`
@@ -111,6 +111,9 @@ func c04Gen(r *kit.Rand, idx int) c04Case {
 		if op.Op == "create-files" || op.Op == "create-from" {
 			if r.Chance(1, 2) {
 				op.Template = fmt.Sprintf("{{ .Prompt }} t%d", r.Intn(3))
+				if r.Chance(1, 6) {
+					op.Template = kit.Pick(r, []string{"{{ .Prompt", "{{ if }}", "{{ .Prompt }} {{ end }}"}) // rejected: must change nothing
+				}
 			}
 			if r.Chance(1, 2) {
 				op.System = fmt.Sprintf("system %d", r.Intn(3))
@@ -138,6 +141,9 @@ func c04Gen(r *kit.Rand, idx int) c04Case {
 
 type c04Viol struct{ Sig, What string }
 
+// the chat template of the phi-3 family as GGUF files carry it (server/model.go detectChatTemplate recognises it)
+const c04ChatTemplate = "{% for message in messages %}{% if (message['role'] == 'user') %}{{'<|user|>' + '\n' + message['content'] + '<|end|>' + '\n' + '<|assistant|>' + '\n'}}{% elif (message['role'] == 'assistant') %}{{message['content'] + '<|end|>' + '\n'}}{% endif %}{% endfor %}"
+
 func c04Pool(r *kit.Rand) [][]byte {
 	var pool [][]byte
 	for i := 0; i < 3; i++ {
@@ -150,6 +156,11 @@ func c04Pool(r *kit.Rand) [][]byte {
 				kit.U32KV("verif.unique", uint32(i)),
 			},
 			Tensors: []kit.GTensor{{Name: "token_embd.weight", Dims: []uint64{8}, Kind: 0, Data: make([]byte, 32)}, {Name: "output.weight", Dims: []uint64{8}, Kind: 0, Data: make([]byte, 32)}},
+		}
+		if i > 0 {
+			// two different files of one family: create detects the same chat template for both and stores the
+			// identical template and stop-parameter blobs for every model made from either
+			f.KVs = append(f.KVs, kit.StrKV("tokenizer.chat_template", c04ChatTemplate))
 		}
 		pool = append(pool, f.Bytes())
 	}
